@@ -877,15 +877,18 @@ class Manager:
             if self.__process.is_alive():
                 kill(self.__process.pid, SIGKILL)
 
-        if not self.running:
-            return
+        # (test and clear in one step: of two overlapping calls - two threads, a
+        # thread and a handler - exactly one announces the stop)
+        with self._lock:
+            if not self.running:
+                return
 
-        # `stopped` is queued before the flag is cleared: run() goes on as
-        # long as there is something in the queue, so it cannot fade out and
-        # return between the two steps (stop() from another thread)
-        self.fire(stopped(self))
+            # `stopped` is queued before the flag is cleared: run() goes on as
+            # long as there is something in the queue, so it cannot fade out
+            # and return between the two steps (stop() from another thread)
+            self.fire(stopped(self))
 
-        self._running = False
+            self._running = False
 
         # (a loop that went idle in between must notice the cleared flag)
         with self._lock:
